@@ -264,13 +264,16 @@ end LibfiberVerif.C10
 
   The multi-thread corollary of §1–§2: model `SchedN.sys maxSteal` (Model/SchedN.lean) has
   kernel threads `k : Nat` (unbounded), each with `frm k` / `to k` / `cur k` and the events of
-  `Sched` per thread, plus `steal k j w f`: thread `k`, inside a `fiber_scheduler_load_balance`
-  call, takes the TOP (last list element) of thread `j`'s deque `w` and pushes it onto the
-  BOTTOM of its own `schedule_from`.  Assumed facts about load_balance (source lines in
-  Model/SchedN.lean): steal from the top (fiber_scheduler_wsd.c:136-137), push onto the
-  thief's own `schedule_from` bottom (:142), at most `max_steal = 50` per call (:120,:135,:145),
-  called only by a thread in scheduler code whose two deques are both empty
-  (fiber_manager.c:108-128 and :163-171; true on `sched`-free stretches).  The guard
+  `Sched` per thread at the granularity of the run-queue log (`pop` / `skip` / `switch` /
+  `pushed` for fiber_scheduler_next and the pushes that follow it, `finish k sv` + `saved` for
+  a fiber that parks in state SAVING_STATE_TO_WAIT, `idle` for the way into the maintenance
+  loop), plus `steal k j w f`: thread `k`, inside a `fiber_scheduler_load_balance` call, takes
+  the TOP (last list element) of thread `j`'s deque `w` and pushes it onto the BOTTOM of its own
+  `schedule_from`.  Facts about load_balance in the model (source lines in Model/SchedN.lean):
+  steal from the top (fiber_scheduler_wsd.c:136-137), push onto the thief's own `schedule_from`
+  bottom (:142), at most `max_steal = 50` per call (:120,:135,:145), called only by a thread in
+  scheduler code whose `schedule_from` is empty (fiber_manager.c:108-128 and :163-171) — its
+  `store_to` may hold fibers (skipped ones, SAVING_STATE_TO_WAIT).  The guard
   `remote_count > local_count` (:135) is deliberately NOT assumed (the theorems hold without
   it); `steal_pingpong` shows that it does not prevent ping-pong either.
 
@@ -280,15 +283,20 @@ end LibfiberVerif.C10
     s.loc f            ghost: the thread holding f (queued or running); exact by `one_place`
     s.busy             ghost: the fibers that are somewhere; exact by `one_place`
     s.lb k             ghost: steals made by k in its load_balance call in progress (0 = none)
+    s.sav f            f's state word is SAVING_STATE_TO_WAIT (its context is being saved)
     holderSwitches M f s es := number of `switch k _` events in the run of `es` from `s` with
                           `k` = the thread holding `f` at that moment
     stealsOf f es      := number of `steal _ _ _ f` events in es
-    isRunOf f e        := e is `switch _ f`;   isSched e := e is `sched _ _`
+    scheds es          := number of `sched _ _` events in es
+    isRunOf f e        := e is `switch _ f`;   isSched e := e is `sched _ _`;
+    isSchedOf f e      := e is `sched _ f`
     actor e            := the thread performing e
 
-  Tie to the code: per thread this is the one-thread model validated exactly (run order)
-  against the real scheduler; with N threads the run-queue traffic of every runtime log is
-  validated by model `Rt` (bags).  No driver of its own.
+  Tie to the code: `SchedN.drive` replays the run-queue events (`rqpush` / `rqpop` / `rqsteal`),
+  the context switches and the fiber-state accesses of fiber_manager_yield /
+  fiber_scheduler_next of every N-thread log of harness/yield.c through `SchedN.step`, one
+  model event per log line; the one-thread model is validated exactly (run order) by
+  `Sched.drive`.
 -/
 namespace LibfiberVerif.SchedN
 open LibfiberVerif.Sched (Phase)
@@ -328,6 +336,14 @@ theorem switch_on_holder_decreases_rank (M : Nat) : ∀ es s, (sys M).run es = s
   intro es s h k f hq g s' hgf hst
   exact rank_switch (inv_of_run h) hq hst hgf
 
+/-- (a') fiber_scheduler_next on the holder skips another fiber whose context is still being
+    saved (fiber_scheduler_wsd.c:108-109): no context switch, and the rank strictly decreases. -/
+theorem skip_on_holder_decreases_rank (M : Nat) : ∀ es s, (sys M).run es = some s →
+    ∀ k f, QueuedOn k f s → ∀ g s', g ≠ f → (sys M).step s (.skip k g) = some s' →
+    QueuedOn k f s' ∧ rankOn k f s' < rankOn k f s := by
+  intro es s _ k f hq g s' hgf hst
+  exact rank_skip (M := M) hq hst hgf
+
 /-- (b) Events of OTHER threads never increase the rank of `f` on its holder `k` and leave it
     queued there — except a steal that moves `f` itself. -/
 theorem other_threads_keep_rank (M : Nat) : ∀ es s, (sys M).run es = some s →
@@ -347,13 +363,15 @@ theorem steal_from_top_exact (M : Nat) : ∀ es s, (sys M).run es = some s →
   intro es s hr k f hq j w h s' hhf hst
   exact rank_steal_other (inv_of_run hr) hq hst hhf
 
-/-- The holder's own `yield` / `finish` / `resumed` do not move `f`. -/
+/-- The holder's own events other than `skip`, `switch` and `steal` (`yield`, `pop`, `pushed`,
+    `resumed`, `idle`, `finish`, `saved`) do not move `f`. -/
 theorem holder_other_events_keep_rank (M : Nat) : ∀ es s, (sys M).run es = some s →
     ∀ k f, QueuedOn k f s → ∀ e s', actor e = k → isSched e = false →
-    (∀ g, e ≠ .switch k g) → (∀ j w g, e ≠ .steal k j w g) → (sys M).step s e = some s' →
+    (∀ g, e ≠ .skip k g) → (∀ g, e ≠ .switch k g) → (∀ j w g, e ≠ .steal k j w g) →
+    (sys M).step s e = some s' →
     QueuedOn k f s' ∧ rankOn k f s' = rankOn k f s := by
-  intro es s h k f hq e s' ha hns hsw hst hstep
-  exact rank_own_other (inv_of_run h) hq hstep ha hns hsw hst
+  intro es s _ k f hq e s' ha hns hsk hsw hst hstep
+  exact rank_own_other hq hstep ha hns hsk hsw hst
 
 /-- (c) A steal of `f` moves it from its holder `j` to the BOTTOM of the thief's
     `schedule_from`: rank 0 on the new holder, and the thief's next context switch is to `f`. -/
@@ -365,16 +383,35 @@ theorem stolen_fiber_is_next (M : Nat) : ∀ es s, (sys M).run es = some s →
   obtain ⟨h1, h2, h3, h4, h5, _⟩ := rank_stolen (inv_of_run h) hst
   exact ⟨h1, h2, h4, h5, fun g s'' hsw => switch_bottom (M := M) h3 hsw⟩
 
-/-- (c, continued) ... unless the thief pushes more loot on top first.  The holder of a queued
-    `f` can steal only inside the load_balance call in which it stole `f` (`f` is in its
-    `schedule_from`, `store_to` is empty, fewer than `maxSteal` steals so far); each such steal
-    adds exactly 1 to the rank. -/
-theorem holder_steal_adds_one (M : Nat) : ∀ es s, (sys M).run es = some s →
+/-- (c, continued) ... unless the thief pushes more loot on top first.  When the holder `k` of a
+    queued `f` steals, then EITHER `f` is loot of the load_balance call in progress (`f` is in
+    `schedule_from k`, fewer than `maxSteal` steals so far) and the steal adds exactly 1 to its
+    rank, OR `f` waits in `store_to k` and the steal adds exactly 2 (the loot is popped before
+    the deques are swapped, and re-queued in front of `f` if it yields).
+    The second case is what the real scheduler does when fiber_scheduler_next has returned NULL
+    with skipped (SAVING_STATE_TO_WAIT) fibers in `store_to` — an earlier version of the model
+    excluded it by requiring both deques to be empty at a load_balance call.  How often it can
+    happen is bounded by the number of fibers, see `holder_bypass_bounded`. -/
+theorem holder_steal_adds_one_or_two (M : Nat) : ∀ es s, (sys M).run es = some s →
     ∀ k f, QueuedOn k f s → ∀ j w h s', (sys M).step s (.steal k j w h) = some s' →
-    f ∈ s.frm k ∧ s.to k = [] ∧ 0 < s.lb k ∧ s.lb k < M ∧ s'.lb k = s.lb k + 1 ∧
-    QueuedOn k f s' ∧ rankOn k f s' = rankOn k f s + 1 := by
+    QueuedOn k f s' ∧
+    ((f ∈ s.frm k ∧ 0 < s.lb k ∧ s.lb k < M ∧ s'.lb k = s.lb k + 1 ∧
+        rankOn k f s' = rankOn k f s + 1) ∨
+     (f ∈ s.to k ∧ rankOn k f s' = rankOn k f s + 2)) := by
   intro es s hr k f hq j w h s' hst
   exact rank_holder_steals (inv_of_run hr) hq hst
+
+/-- A load_balance call starts with an empty `schedule_from`: a thread that steals while its
+    `schedule_from` is non-empty is inside a call (`0 < lb < maxSteal`). -/
+theorem steal_needs_empty_schedule_from (M : Nat) : ∀ es s, (sys M).run es = some s →
+    ∀ k j w h s', (sys M).step s (.steal k j w h) = some s' →
+    s.phase k ≠ .running ∧ (s.frm k = [] ∨ (0 < s.lb k ∧ s.lb k < M)) := by
+  intro es s _ k j w h s' hst
+  obtain ⟨_, hp, _, n, _, hlb, _⟩ := step_steal hst
+  refine ⟨hp, ?_⟩
+  rcases lbNext_some hlb with h | h
+  · exact Or.inl h.1
+  · exact Or.inr ⟨h.2.1, h.2.2.1⟩
 
 /-- (c, bound) Inside a load_balance call the rank of any fiber in the thief's `schedule_from`
     is below the number of steals of the call, which is at most `maxSteal` (50 in the code). -/
@@ -387,20 +424,80 @@ theorem loot_rank_lt_max_steal (M : Nat) (hM : 0 < M) : ∀ es s, (sys M).run es
 
 /-! ## N.2 bounded bypass across holders -/
 
-/-- General form.  From any reachable state, along ANY accepted continuation without `sched` in
-    which `f` is not switched to: the context switches on the thread holding `f` at that time,
-    summed over all holders `f` passes through, number at most
+/-- A fiber whose context is saved keeps that property as long as it is not woken (a fiber
+    becomes SAVING_STATE_TO_WAIT only at the end of its own run, and is nowhere then), and
+    fiber_scheduler_next never skips it. -/
+theorem ready_fiber_not_skipped (M : Nat) : ∀ es s, (sys M).run es = some s →
+    ∀ f, s.sav f = false ∨ s.loc f = none → ∀ es' s1 k s2, (sys M).runFrom s es' = some s1 →
+    (∀ e ∈ es', isSchedOf f e = false) → (sys M).step s1 (.skip k f) = some s2 → False := by
+  intro es s h f hr es'
+  have hI := inv_of_run h
+  clear h
+  induction es' generalizing s with
+  | nil =>
+    intro s1 k s2 h1 _ hsk
+    simp [Sys.runFrom] at h1; subst h1
+    exact not_skip_of_ready hI hr hsk
+  | cons e es' ih =>
+    intro s1 k s2 h1 hns hsk
+    simp only [Sys.runFrom] at h1
+    cases hst : (sys M).step s e with
+    | none => simp [hst] at h1
+    | some sa =>
+      simp [hst] at h1
+      exact ih sa (ready_step hI hst (hns e (by simp)) hr) (inv_step hI hst) s1 k s2 h1
+        (fun e' he' => hns e' (by simp [he'])) hsk
+
+/-- General form.  From any reachable state in which `f`'s context is saved, along ANY accepted
+    continuation without `sched` in which `f` is not switched to: the context switches on the
+    thread holding `f` at that time, summed over all holders `f` passes through, number at most
     `2·(number of fibers) + (maxSteal − 1)·(1 + number of times f itself is stolen)` —
-    however often the others yield, whatever the other threads do. -/
+    however often the others yield, whatever the other threads do (including load_balance calls
+    of the holder while `f` waits in its `store_to`).
+    The hypothesis `s.sav f = false` is new with the SAVING_STATE_TO_WAIT states of the model:
+    a fiber that was woken while its context is still being saved sits in a run queue but
+    cannot run; fiber_scheduler_next skips it for as long as the thread it parked on takes
+    to finish the context switch, which no number of switches of the holder bounds. -/
 theorem holder_bypass_bounded (M : Nat) : ∀ es s, (sys M).run es = some s →
-    ∀ f es' s', (sys M).runFrom s es' = some s' →
+    ∀ f, s.sav f = false → ∀ es' s', (sys M).runFrom s es' = some s' →
     (∀ e ∈ es', isSched e = false) → (∀ e ∈ es', isRunOf f e = false) →
     holderSwitches M f s es' ≤ 2 * s.busy.length + (M - 1) * (1 + stealsOf f es') := by
-  intro es s h f es' s' hr hns hnr
+  intro es s h f hsv es' s' hr hns hnr
   have hI := inv_of_run h
-  have h1 := pot_run es' s s' hI hr hns hnr
+  have h1 := pot_run es' s s' hI (Or.inl hsv) hr
+    (fun e he => isSchedOf_of_isSched (hns e he)) hnr
+  have h2 := pot_le hI f
+  rw [scheds_eq_zero hns] at h1
+  rw [Nat.mul_add]
+  omega
+
+/-- The same with fibers being created / woken meanwhile (`f` itself is not: it is ready, not
+    parked): every `sched` costs `f` at most 2 more bypasses. -/
+theorem holder_bypass_bounded_with_wakeups (M : Nat) : ∀ es s, (sys M).run es = some s →
+    ∀ f, s.sav f = false → ∀ es' s', (sys M).runFrom s es' = some s' →
+    (∀ e ∈ es', isSchedOf f e = false) → (∀ e ∈ es', isRunOf f e = false) →
+    holderSwitches M f s es' ≤
+      2 * s.busy.length + (M - 1) * (1 + stealsOf f es') + 2 * scheds es' := by
+  intro es s h f hsv es' s' hr hns hnr
+  have hI := inv_of_run h
+  have h1 := pot_run es' s s' hI (Or.inl hsv) hr hns hnr
   have h2 := pot_le hI f
   rw [Nat.mul_add]
+  omega
+
+/-- The bound the N-thread monitor of `SchedN.drive` applies: from the moment `f` is put into
+    `store_to` of a thread (re-queued after a run, woken, or skipped) and for as long as it is
+    neither woken again, skipped nor switched to, the context switches on its holders number at
+    most `2·(number of fibers at that moment) + (maxSteal − 1)·(times f is stolen) +
+    2·(fibers created or woken meanwhile)`. -/
+theorem bypass_bound_from_store_to (M : Nat) : ∀ es s, (sys M).run es = some s →
+    ∀ k f, f ∈ s.to k → s.sav f = false → ∀ es' s', (sys M).runFrom s es' = some s' →
+    (∀ e ∈ es', isSchedOf f e = false) → (∀ e ∈ es', isRunOf f e = false) →
+    holderSwitches M f s es' ≤ 2 * s.busy.length + (M - 1) * stealsOf f es' + 2 * scheds es' := by
+  intro es s h k f hf hsv es' s' hr hns hnr
+  have hI := inv_of_run h
+  have h1 := pot_run es' s s' hI (Or.inl hsv) hr hns hnr
+  have h2 := pot_le_of_to (M := M) hI hf
   omega
 
 /-- Between two consecutive runs of `f` (absent fiber creation in between): at most
@@ -427,11 +524,13 @@ theorem between_consecutive_runs_N (M : Nat) : ∀ es k f es' k' s_end,
         have hr1 : (sys M).run (es ++ [.switch k f]) = some s1 := by
           simp [Sys.run, Sys.runFrom_append, h1, Sys.runFrom, hst]
         have hI := inv_of_run hr1
-        obtain ⟨_, frm', to', _, hs1⟩ := step_switch (M := M) hst
+        obtain ⟨_, hsv, frm', to', _, hs1⟩ := step_switch (M := M) hst
         have hc : s1.cur k = some f := by rw [hs1]; simp
+        have hsv1 : s1.sav f = false := by rw [hs1]; exact hsv
         have hl := hI.curLoc k f hc
-        have hp := pot_run es' s1 s2 hI hmid hns hnr
-        rw [pot_cur hl hc] at hp
+        have hp := pot_run es' s1 s2 hI (Or.inl hsv1) hmid
+          (fun e he => isSchedOf_of_isSched (hns e he)) hnr
+        rw [pot_cur hl hc, scheds_eq_zero hns] at hp
         exact ⟨s1, hr1, hl, by omega⟩
 
 /-- The code's constant: `max_steal = 50`, so every steal of `f` costs it at most 49 more
@@ -476,37 +575,44 @@ theorem between_consecutive_runs_not_stolen (M : Nat) : ∀ es k f es' k' s_end,
     Two idle thieves can pass a ready fiber back and forth for ever: fiber 0 on thread 0 wakes
     fiber 5 (`sched 0 5`), the idle thread 2 steals it, then — each time before the holder's
     `fiber_scheduler_next` has popped it — thread 1 steals it from thread 2 and thread 2 steals
-    it back, while fiber 0 polls with `fiber_yield` (which finds nothing on thread 0 and
+    it back (each `steal` followed by its `pushed`: the push_bottom onto the thief's
+    `schedule_from`), while fiber 0 polls with `fiber_yield` (which finds nothing on thread 0 and
     returns).  For every `n` this is an accepted event list with `2·n` steals of fiber 5,
     `2·n` yields of the poller, no `sched`, no context switch at all — fiber 5 is ready all the
     time and never runs —, and `remote_count > local_count` holds at every steal (the victim
     deque has 1 entry, the thief's `schedule_from` 0), so the guard of load_balance does not
     prevent it.  It takes a kernel-thread schedule in which each thief is overtaken between
-    its `push_bottom` (fiber_scheduler_wsd.c:142) and its pop (:108) every single time. -/
+    its `push_bottom` (fiber_scheduler_wsd.c:142) and its pop (:106) every single time. -/
 theorem steal_pingpong (M : Nat) (n : Nat) : ∃ s0 s',
-    (sys M).run [.sched 0 5, .steal 2 0 .to 5, .steal 1 2 .frm 5] = some s0 ∧
+    (sys M).run [.sched 0 5, .steal 2 0 .to 5, .pushed 2 .frm 5, .steal 1 2 .frm 5,
+      .pushed 1 .frm 5] = some s0 ∧
     (sys M).runFrom s0 (stealPingpong n) = some s' ∧
-    CountGuard M init [.sched 0 5, .steal 2 0 .to 5, .steal 1 2 .frm 5] ∧
+    CountGuard M init [.sched 0 5, .steal 2 0 .to 5, .pushed 2 .frm 5, .steal 1 2 .frm 5,
+      .pushed 1 .frm 5] ∧
     CountGuard M s0 (stealPingpong n) ∧
     (∀ e ∈ stealPingpong n, isSched e = false ∧ isSwitch e = false) ∧
     stealsOf 5 (stealPingpong n) = 2 * n ∧
     (stealPingpong n).count (.yield 0) = 2 * n ∧
-    QueuedOn 1 5 s0 ∧ QueuedOn 1 5 s' := by
+    QueuedOn 1 5 s0 ∧ QueuedOn 1 5 s' ∧ s0.sav 5 = false := by
   obtain ⟨s0, h0, hp0, hg0⟩ := pp_setup M
   obtain ⟨s', h1, hp1, hg1⟩ := pingpong_run M n hp0
   obtain ⟨c1, c2, c3⟩ := pingpong_props n
-  exact ⟨s0, s', h0, h1, hg0, hg1, c1, c2, c3, Or.inl (by simp [hp0.frm1]),
-    Or.inl (by simp [hp1.frm1])⟩
+  refine ⟨s0, s', h0, h1, hg0, hg1, c1, c2, c3, Or.inl (by simp [hp0.frm1]),
+    Or.inl (by simp [hp1.frm1]), ?_⟩
+  have : (sys M).run ppSetup = some s0 := h0
+  simp [Sys.run, Sys.runFrom, sys, ppSetup, step, init, src, popTop, lbNext, setSrc, upd] at this
+  rw [← this]
 
 /-- Consequently the number of steals of a ready fiber before it runs is not bounded by
     anything: the term `stealsOf f es'` in the theorems above cannot be replaced by a constant
     without a hypothesis such as the one of `between_consecutive_runs_no_resteal`. -/
 theorem steals_unbounded (M : Nat) (B : Nat) : ∃ s0 es' s',
-    (sys M).run [.sched 0 5, .steal 2 0 .to 5, .steal 1 2 .frm 5] = some s0 ∧
+    (sys M).run [.sched 0 5, .steal 2 0 .to 5, .pushed 2 .frm 5, .steal 1 2 .frm 5,
+      .pushed 1 .frm 5] = some s0 ∧
     (sys M).runFrom s0 es' = some s' ∧
     (∀ e ∈ es', isSched e = false) ∧ (∀ e ∈ es', isRunOf 5 e = false) ∧
     B < stealsOf 5 es' := by
-  obtain ⟨s0, s', h0, h1, _, _, c1, c2, _, _, _⟩ := steal_pingpong M (B + 1)
+  obtain ⟨s0, s', h0, h1, _, _, c1, c2, _, _, _, _⟩ := steal_pingpong M (B + 1)
   refine ⟨s0, stealPingpong (B + 1), s', h0, h1, fun e he => (c1 e he).1, ?_, by omega⟩
   intro e he
   have := (c1 e he).2
@@ -514,18 +620,23 @@ theorem steals_unbounded (M : Nat) (B : Nat) : ∃ s0 es' s',
 
 /-! ## N.4 non-vacuity (2 kernel threads, a steal in the middle of a batch) -/
 
-/-- main fiber 0 creates 1, 2, 3 on thread 0; 3 and 2 run and yield; 1 is about to run -/
+/-- main fiber 0 creates 1, 2, 3 on thread 0; 3 and 2 run and yield; 1 has been popped and is
+    about to run -/
 def exPre : List Ev :=
-  [.sched 0 1, .sched 0 2, .sched 0 3, .yield 0, .switch 0 3, .resumed 0, .yield 0,
-   .switch 0 2, .resumed 0, .yield 0]
+  [.sched 0 1, .sched 0 2, .sched 0 3,
+   .yield 0, .pop 0 3, .switch 0 3, .pushed 0 .to 0, .resumed 0,
+   .yield 0, .pop 0 2, .switch 0 2, .pushed 0 .to 3, .resumed 0,
+   .yield 0, .pop 0 1]
 
 /-- Between two runs of fiber 1: it yields on thread 0 and is bypassed there by 2 and 3; then,
     in the middle of the batch, the idle thread 1 steals it from the top of `store_to 0`, steals
     fiber 0 from `schedule_from 0` on top of it in the same load_balance call, runs fiber 0
     first, and finally fiber 1. -/
 def exMid : List Ev :=
-  [.resumed 0, .yield 0, .switch 0 2, .resumed 0, .yield 0, .switch 0 3,
-   .steal 1 0 .to 1, .steal 1 0 .frm 0, .switch 1 0, .resumed 1, .yield 1]
+  [.pushed 0 .to 2, .resumed 0, .yield 0, .pop 0 2, .switch 0 2,
+   .pushed 0 .to 1, .resumed 0, .yield 0, .pop 0 3, .switch 0 3, .pushed 0 .to 2,
+   .steal 1 0 .to 1, .pushed 1 .frm 1, .steal 1 0 .frm 0, .pushed 1 .frm 0,
+   .pop 1 0, .switch 1 0, .resumed 1, .yield 1, .pop 1 1]
 
 /-- The hypotheses of `between_consecutive_runs_N/_code/_no_resteal` are satisfiable by a
     two-thread run with a steal in the middle of a batch: 4 fibers, fiber 1 is stolen once,
@@ -546,20 +657,72 @@ example : ∃ s1 s_end,
     fiber 2 at rank 2; the next steal (fiber 0, out of `schedule_from 0`) raises the stolen
     fiber 1 to rank 1 on the thief and LOWERS fiber 2 on thread 0 by 2, to rank 0. -/
 example :
-    ((sys codeMaxSteal).run (exPre ++ [.switch 0 1] ++ exMid.take 6)).map
+    ((sys codeMaxSteal).run (exPre ++ [.switch 0 1] ++ exMid.take 11)).map
         (fun s => (s.frm 0, s.to 0, rankOn 0 1 s, rankOn 0 2 s)) = some ([0], [2, 1], 3, 2) ∧
-    ((sys codeMaxSteal).run (exPre ++ [.switch 0 1] ++ exMid.take 7)).map
+    ((sys codeMaxSteal).run (exPre ++ [.switch 0 1] ++ exMid.take 12)).map
         (fun s => (s.frm 1, s.to 0, rankOn 1 1 s, rankOn 0 2 s, s.lb 1)) =
       some ([1], [2], 0, 2, 1) ∧
-    ((sys codeMaxSteal).run (exPre ++ [.switch 0 1] ++ exMid.take 8)).map
+    ((sys codeMaxSteal).run (exPre ++ [.switch 0 1] ++ exMid.take 14)).map
         (fun s => (s.frm 1, s.frm 0, rankOn 1 1 s, rankOn 0 2 s, s.lb 1)) =
       some ([0, 1], [], 1, 0, 2) := by decide
 
-/-- The first cycles of the steal ping-pong, concretely: after 3 + 12 events fiber 5 has been
+/-- The first cycles of the steal ping-pong, concretely: after 5 + 16 events fiber 5 has been
     stolen 6 times, nothing has run, and it sits on thread 1 again. -/
 example : ((sys codeMaxSteal).run
-      ([.sched 0 5, .steal 2 0 .to 5, .steal 1 2 .frm 5] ++ stealPingpong 2)).map
+      ([.sched 0 5, .steal 2 0 .to 5, .pushed 2 .frm 5, .steal 1 2 .frm 5, .pushed 1 .frm 5] ++
+        stealPingpong 2)).map
       (fun s => (s.frm 1, s.frm 2, s.loc 5, s.cur 0, s.cur 1, s.cur 2)) =
     some ([5], [], some 1, some 0, none, none) := rfl
+
+/-- A fiber that parks in state SAVING_STATE_TO_WAIT, is woken at once and reaches a run queue
+    while its context is still being saved (2 kernel threads).  Thread 1 steals fiber 1 and runs
+    it; fiber 1 parks (`finish 1 true`); fiber 0 on thread 0 wakes it (`sched 0 1`) before
+    thread 1 has left it; thread 0's fiber_scheduler_next pops fiber 1, finds it SAVING and skips
+    it into `store_to 0` — fiber 2 moves from rank 1 to rank 0 without a context switch — and
+    switches to fiber 2.  Then thread 1 goes into its maintenance loop (`idle`), marks fiber 1
+    WAITING (`saved`), calls load_balance — its `schedule_from` is empty —, steals fiber 1 back
+    and runs it.  Every event kind of the model occurs in this run. -/
+def exSaving : List Ev :=
+  [.sched 0 1, .sched 0 2, .steal 1 0 .to 1, .pushed 1 .frm 1, .pop 1 1, .switch 1 1,
+   .finish 1 true, .sched 0 1, .yield 0, .pop 0 1, .skip 0 1, .pushed 0 .to 1,
+   .pop 0 2, .switch 0 2, .pushed 0 .to 0, .idle 1, .saved 1 1,
+   .steal 1 0 .to 1, .pushed 1 .frm 1, .pop 1 1, .switch 1 1, .resumed 1]
+
+example :
+    ((sys codeMaxSteal).run (exSaving.take 10)).map
+        (fun s => (s.frm 0, s.to 0, s.sav 1, s.loc 1, rankOn 0 2 s)) =
+      some ([], [1, 2], true, some 0, 1) ∧
+    ((sys codeMaxSteal).run (exSaving.take 11)).map
+        (fun s => (s.frm 0, s.to 0, s.sav 1, rankOn 0 2 s, s.cur 0)) =
+      some ([2], [1], true, 0, some 0) ∧
+    ((sys codeMaxSteal).run (exSaving.take 17)).map
+        (fun s => (s.frm 0, s.to 0, s.sav 1, s.cur 0, s.cur 1)) =
+      some ([], [0, 1], false, some 2, none) ∧
+    ((sys codeMaxSteal).run exSaving).map
+        (fun s => (s.frm 0, s.to 0, s.cur 0, s.cur 1, s.loc 1, s.busy)) =
+      some ([], [0], some 2, some 1, some 1, [1, 2, 0]) := ⟨rfl, rfl, rfl, rfl⟩
+
+/-- `holder_steal_adds_one_or_two`, second case, concretely: thread 1 holds the skipped fiber 1 in
+    its `store_to` (rank 0) when its fiber_scheduler_next has returned NULL, goes into its
+    maintenance loop and steals fiber 2 from thread 0: fiber 1 now has rank 2 on thread 1 and is
+    run after the loot.  (Fiber 1 parked on thread 0 this time and was woken by fiber 3 on
+    thread 1.) -/
+def exStoreTo : List Ev :=
+  [.sched 0 1, .sched 0 2, .sched 0 3, .steal 1 0 .to 1, .pushed 1 .frm 1,
+   .steal 1 0 .to 2, .pushed 1 .frm 2, .pop 1 2, .switch 1 2,        -- thread 1 runs fiber 2
+   .yield 0, .pop 0 3, .switch 0 3, .pushed 0 .to 0,                  -- thread 0 runs fiber 3
+   .finish 0 true,                                                   -- fiber 3 parks, SAVING
+   .sched 1 3,                                                       -- fiber 2 wakes it: to 1 = [3]
+   .finish 1 false,                                                  -- fiber 2 is done
+   .pop 1 1, .switch 1 1, .finish 1 false,                           -- thread 1 runs fiber 1: done
+   .pop 1 3, .skip 1 3, .pushed 1 .to 3, .idle 1,                    -- fiber 3 still SAVING: skipped
+   .steal 1 0 .to 0, .pushed 1 .frm 0]                               -- load_balance, store_to = [3]
+
+example :
+    ((sys codeMaxSteal).run (exStoreTo.take 23)).map
+        (fun s => (s.frm 1, s.to 1, s.sav 3, rankOn 1 3 s, s.lb 1)) = some ([], [3], true, 0, 0) ∧
+    ((sys codeMaxSteal).run exStoreTo).map
+        (fun s => (s.frm 1, s.to 1, rankOn 1 3 s, s.lb 1, s.frm 0, s.to 0)) =
+      some ([0], [3], 2, 1, [], []) := ⟨rfl, rfl⟩
 
 end LibfiberVerif.SchedN
